@@ -69,6 +69,37 @@ Lemma f6_handoff_witness :
      = [11; 12; 13; 14; 15; 16; 16; 17; 18; 19; 20].
 Proof. vm_compute. repeat split; reflexivity. Qed.
 
+(* F11: with unrestricted stragglers admitted the coverage statement fails even for offsets strictly inside the window *)
+Definition ok_op_wild (p LB : Z) (op : rop) : bool :=
+  match op with Wild _ _ => true | _ => ok_op p LB op end.
+
+Definition C07_cover_straggler_statement : Prop :=
+  forall cfg p f t ops,
+    forallb (ok_op_wild p (-1)) ops = true -> 0 <= f ->
+    lookup p (trk (final_state cfg init_state (Request p f t :: ops))) = Some [] ->
+    forall o, f < o <= t -> In o (run_emits p (rrun cfg init_state (Request p f t :: ops))).
+
+(* a straggler ON the broadcast grid (20), then a refresh caused by another partition's request: 13..19 are lost *)
+Definition f11_grid_ops : list rop :=
+  [SetOwned [1; 2]; Refresh; Pump 1 3; Wild 1 6; Request 2 0 5; Refresh; Pump 1 15].
+(* a straggler beyond to (21) closes the request: 13..20 are lost *)
+Definition f11_beyond_ops : list rop := [SetOwned [1]; Refresh; Pump 1 3; Wild 1 7; Pump 1 12].
+
+Lemma f11_witness :
+  (forallb (ok_op_wild 1 (-1)) f11_grid_ops = true
+   /\ lookup 1 (trk (final_state f6_cfg init_state (Request 1 10 30 :: f11_grid_ops))) = Some []
+   /\ run_emits 1 (rrun f6_cfg init_state (Request 1 10 30 :: f11_grid_ops)) = [11; 12; 20; 21; 22; 23; 24; 25; 26; 27; 28; 29; 30])
+  /\ (forallb (ok_op_wild 1 (-1)) f11_beyond_ops = true
+      /\ lookup 1 (trk (final_state f6_cfg init_state (Request 1 10 20 :: f11_beyond_ops))) = Some []
+      /\ run_emits 1 (rrun f6_cfg init_state (Request 1 10 20 :: f11_beyond_ops)) = [11; 12]).
+Proof. vm_compute. repeat split; reflexivity. Qed.
+
+Lemma cover_straggler_refuted : ~ C07_cover_straggler_statement.
+Proof.
+  intros H. destruct f11_witness as [_ [H1 [H2 H3]]].
+  specialize (H f6_cfg 1 10 20 f11_beyond_ops H1 ltac:(lia) H2 15 ltac:(lia)). rewrite H3 in H. cbn [In] in H. lia.
+Qed.
+
 (* the hypothesis of cover_run is what RequestRecovery establishes on a consumer that knows nothing of p yet *)
 Lemma request_is_fresh cfg s p f t :
   lookup p (trk s) = None -> lookup p (replay (mlog s)) = None -> active s = [] -> t - f <= c_maxrec cfg ->
